@@ -1,11 +1,11 @@
 """C20 — Beat-grid normalisation brackets the track and keeps its tempo."""
-import random, struct
+import os, random, struct, subprocess, sys
 from fractions import Fraction
 from common import *
 import runner
 
 ID = "C20"
-LEAN_MODULES = ["Properties.C20"]
+LEAN_MODULES = ["Properties.C20", "Properties.C20Gen"]
 THEOREMS = ["EngineModel.Properties.C20." + t for t in [
     # A. every arithmetic (incl. the Float instance the driver runs)
     "C20_defined", "C20_ok_or_invalid", "C20_trim_infix", "C20_gen_first_index", "C20_gen_interior_unchanged",
@@ -16,6 +16,15 @@ THEOREMS = ["EngineModel.Properties.C20." + t for t in [
     "C20_interior_unchanged", "C20_tempo_kept", "C20_bracket", "C20_sorted", "C20_idempotent",
     # C. witnesses
     "C20_defined_counterexample", "C20_accept_of_overlap_counterexample", "C20_former_ub_witnesses"]]
+# D. the function regenerated from engine.cpp on every run (tools/tr_beatgrid.py): equal to the hand model for
+#    every arithmetic, and the main clauses restated on it.  Statements mention names only; the proofs unfold the
+#    regenerated blocks, so a change of what the C++ computes breaks one of them.
+THEOREMS += ["EngineModel.Properties.C20Gen." + t for t in [
+    "C20Gen_eq_partial", "C20Gen_eq_float_partial", "C20Gen_eq_rat_partial",
+    "C20Gen_defined", "C20Gen_ok_or_invalid", "C20Gen_gen_shape", "C20Gen_gen_reject_of", "C20Gen_float",
+    "C20Gen_reject_iff", "C20Gen_reject_out_of_range", "C20Gen_accept_of_overlap", "C20Gen_first_index",
+    "C20Gen_interior_kept", "C20Gen_interior_inside", "C20Gen_interior_unchanged", "C20Gen_tempo_kept",
+    "C20Gen_bracket", "C20Gen_sorted", "C20Gen_idempotent", "C20Gen_empty"]]
 ASSUMPTIONS = [
     "the quantitative clauses (bracket, tempo, idempotence, exact rejection set) are theorems over exact rationals "
     "(instance ratNum, Lean core Rat, executable); the C++ is tied bit-for-bit to the same generic Lean code "
@@ -27,13 +36,28 @@ ASSUMPTIONS = [
     "comparisons satisfy them but Lean's Float is opaque, so this is not a theorem about floatNum)",
     "beat indices are int32_t (Idx32) and the sample count int64_t, as in the C++ signature; the theorems that "
     "mention the window assume a positive sample count",
+    "the theorems about the regenerated function (C20Gen_*) assume in addition at most 2^31 markers (Len31: the "
+    "source computes int32_t last = size() - 1); the translator's mapping (design/C20_gen.md) is trusted and is "
+    "exercised on every run by executing the regenerated function against the real library",
 ]
 MANIFEST = dict(
-    text="Theorems about the Model of normalize_beatgrid, generic over its arithmetic: for every arithmetic (hence for the hardware-Float instance tied bit for bit to the C++) normalisation of a grid with int indices returns a grid or throws invalid_argument (C20_defined: no undefined behaviour - true since the fix that moved the index arithmetic to 64 bits and range-checks the double->int conversion), first index -4, interior positions untouched; over exact rationals, stated about the input grid through the Spec window (trim = window is a theorem): a strictly increasing grid is accepted iff >= 2 of its markers overlap the track, beat -4 lies before the second window marker, the track extends beyond beat -4 and the last index is representable (C20_reject_iff, C20_overlap_iff, C20_accept_of_overlap); last marker in [n, n + beat), first/last tempo kept, interior markers of the input inside the track kept and nothing else, result strictly increasing, idempotent - all grids, any length. Tie: C++ vs Float instance bit for bit (applied twice), C++ vs the exact-rational run within 1e-9 relative, Python oracle written from the property text on the implementation's own answers, extreme-index / extreme-sample-count stream for totality.",
-    note="Trusted: Lean kernel (+ Mathlib's order/field lemmas on Rat); floating-point rounding itself is not bounded by a theorem (tie tolerance 1e-9 relative, rounding-boundary cases counted in the evidence).",
-    technique='Lean 4 theorems (generic over the arithmetic + exact rationals) about an executable model + bit-exact differential run over Float + Float-vs-Q comparison',
+    text="Theorems about the Model of normalize_beatgrid, generic over its arithmetic: for every arithmetic (hence for the hardware-Float instance tied bit for bit to the C++) normalisation of a grid with int indices returns a grid or throws invalid_argument (C20_defined: no undefined behaviour - true since the fix that moved the index arithmetic to 64 bits and range-checks the double->int conversion), first index -4, interior positions untouched; over exact rationals, stated about the input grid through the Spec window (trim = window is a theorem): a strictly increasing grid is accepted iff >= 2 of its markers overlap the track, beat -4 lies before the second window marker, the track extends beyond beat -4 and the last index is representable (C20_reject_iff, C20_overlap_iff, C20_accept_of_overlap); last marker in [n, n + beat), first/last tempo kept, interior markers of the input inside the track kept and nothing else, result strictly increasing, idempotent - all grids, any length. The model is also REGENERATED from engine.cpp on every run (tools/tr_beatgrid.py, clang typed AST -> Gen/BeatgridGen.lean over the same arithmetic class) and proved equal to the hand model for every arithmetic on grids with int indices and <= 2^31 markers (C20Gen_eq_partial); defined / rejection set / acceptance / interior / tempo / bracket / sorted / idempotent are restated on the regenerated function (C20Gen_*), so a change of what the C++ computes breaks a proof obligation. Tie: C++ vs Float instance bit for bit (applied twice), C++ vs the exact-rational run within 1e-9 relative, Python oracle written from the property text on the implementation's own answers, extreme-index / extreme-sample-count stream for totality; the regenerated function over Float against the C++ bit for bit on the same inputs.",
+    note="Trusted: Lean kernel (+ Mathlib's order/field lemmas on Rat); floating-point rounding itself is not bounded by a theorem (tie tolerance 1e-9 relative, rounding-boundary cases counted in the evidence); the translator tools/tr_beatgrid.py and its vocabulary Pure/BeatgridVec.lean (mapping table in design/C20_gen.md; fails closed on an unsupported node: previous translation stays, status in the evidence).",
+    technique='Lean 4 theorems (generic over the arithmetic + exact rationals) about an executable model, the model also regenerated from source and proved equal + bit-exact differential run over Float + Float-vs-Q comparison',
     ref='6/C20')
-TRUSTED_EXTRA = []
+TRUSTED_EXTRA = ["tools/tr_beatgrid.py (clang-14 JSON AST of normalize_beatgrid -> Lean over the same arithmetic class; "
+                 "mapping table in design/C20_gen.md, vocabulary lean/EngineModel/Pure/BeatgridVec.lean; validated by "
+                 "execution: bg.normgen vs the real library, bit for bit, on every generated grid)"]
+
+
+def _translate():
+    r = subprocess.run([sys.executable, os.path.join(VERIF, "tools", "tr_beatgrid.py")],
+                       stdout=subprocess.PIPE, stderr=subprocess.PIPE, text=True)
+    return (r.stdout.strip() or r.stderr.strip()[-200:])
+
+
+# regenerated on every run of check.py; fails closed (unsupported node => previous file stays, status in the evidence)
+TRANSLATORS = {"engine.cpp:normalize_beatgrid": _translate}
 
 
 def dbits(x: float) -> str:
@@ -310,6 +334,10 @@ def tie(ctx):
     scripts = runner.shard(lines, NCPU)
     hout = [o for (outs, _) in runner.run_harness(scripts, stateless=True) for o in outs]
     mout = [o for outs in runner.run_model(scripts) for o in outs]
+    # the function regenerated from the source by tools/tr_beatgrid.py, over hardware Float, on the same inputs:
+    # validates the translator's mapping by execution (independently of the proof that it equals the hand model)
+    glines = [l.replace("bg.norm", "bg.normgen", 1) for l in lines]
+    gout = [o for outs in runner.run_model(runner.shard(glines, NCPU)) for o in outs]
     # exact-rational run of the same Model on the same inputs, and the Spec window
     nq = len(cases) + len(extreme)
     qlines = [l.replace("bg.norm", "bg.normq", 1) for l in lines[:nq]]
@@ -325,22 +353,35 @@ def tie(ctx):
             idx2.append(i)
     h2 = {}
     extra = []
+    g2ok = 0
     if lines2:
         sc2 = runner.shard(lines2, NCPU)
         o2 = [o for (outs, _) in runner.run_harness(sc2, stateless=True) for o in outs]
         m2 = [o for outs in runner.run_model(sc2) for o in outs]
+        g2lines = [l.replace("bg.norm", "bg.normgen", 1) for l in lines2]
+        g2 = [o for outs in runner.run_model(runner.shard(g2lines, NCPU)) for o in outs]
         for k, i in enumerate(idx2):
             h2[i] = o2[k]
             if canon(o2[k]) != canon(m2[k]):
                 extra.append((lines2[k], o2[k], m2[k]))
+            if canon(o2[k]) != canon(g2[k]):
+                extra.append((g2lines[k], o2[k], "regenerated: " + g2[k]))
+            else:
+                g2ok += 1
     divergences, violations = [], []
     hist = {"ok": 0, "reject": 0, "ub": 0, "end_on_marker": 0, "extreme": len(extreme), "ood": len(ood),
             "extreme_ok": 0, "extreme_reject": 0, "fq_agree": 0, "fq_rounding_boundary": 0,
-            "window_checked": 0, "markers_2": 0, "markers_3_8": 0, "markers_9_64": 0}
+            "window_checked": 0, "markers_2": 0, "markers_3_8": 0, "markers_9_64": 0,
+            "regenerated_vs_impl": len(glines) + len(lines2), "regenerated_vs_impl_ok": g2ok}
     distinct = set()
     for i in range(len(lines)):
         if canon(hout[i]) != canon(mout[i]):
             divergences.append({"input": lines[i][:300], "impl": hout[i][:200], "model": mout[i][:200]})
+        if canon(hout[i]) != canon(gout[i]):
+            divergences.append({"input": glines[i][:300], "impl": hout[i][:200],
+                                "model": "regenerated: " + gout[i][:200]})
+        else:
+            hist["regenerated_vs_impl_ok"] += 1
     for (l, a, b) in extra:
         divergences.append({"input": l[:300], "impl": a[:200], "model": b[:200]})
     for i, (n, g) in enumerate(cases):
@@ -410,11 +451,13 @@ def tie(ctx):
                                     "model": wout[i][:200]})
     return {
         "ok": not divergences and not violations,
-        "evaluations": len(lines) + len(lines2) + 2 * nq,
+        "evaluations": 2 * len(lines) + 2 * len(lines2) + 2 * nq,
         "distinct_nontrivial": len(distinct),
         "rule": "seeded strictly-increasing grids of 2..64 markers (varying start index, tempo changes, markers before 0 "
                 "and beyond the end, track end exactly on a marker in ~25% of cases) plus hand-picked boundary classes; "
                 "C++ normalize_beatgrid vs Lean Beatgrid.normalize over hardware Float, bit for bit, applied twice; "
+                "the same inputs (both applications) through the function regenerated from engine.cpp by "
+                "tools/tr_beatgrid.py (bg.normgen), bit for bit against the C++; "
                 "the same inputs through the exact-rational instance (Float-vs-Q, 1e-9 relative; cases whose exact "
                 "beat count is within 1e-6 of an integer are counted as rounding boundaries); an extreme stream "
                 "(any int32 index, tempi 1e-9..1e15, sample counts over all of int64) for totality; the Python "
